@@ -338,6 +338,7 @@ def run(chk):
                        'invariance; each is replayed into df.fatigue_data with three kinds of row labels (incl. repeated labels). Estimators: walks of ScaleLoads(2^d) / ScaleCycles(2^d) / Permute / Distract '
                        'over an exact Basquin data set, a scattered one and one with mixed run-out levels, for Elementary, Probit, MaxLikeInf, MaxLikeFull; every recorded step is decided by Trace_Analysis.tla '
                        '(closed-form estimators at 1.3e-6, Nelder-Mead based ones at 1e-4; exact recovery of slope/scatter; likelihood ordering). Non-trivial: series with both zones non-empty; accepted walks.')
+    chk.cov['rule'] += ' Data sets: exact (2^k), exact10 (decimal), scatter, flat (k ~ 50, run-outs), mixed (two pure run-out levels); actions incl. ScaleLoads(2^20) and ChangeUnit (ksi, knee at 0.95 / 1.0000001, a 9-digit factor).'
     chk.cov['exhaustive'] = False
     chk.assumptions += ['estimators are covered by validated metamorphic walks on a small data-set catalogue (weaker than the exhaustive zone check)',
                         'MaxLike relations claimed at 1e-4 only (simplex termination, not rounding, limits reproducibility)']
